@@ -37,7 +37,7 @@ TEXT = {
         'technique': 'bounded-exhaustive input enumeration on the implementation with algebraic oracle',
     },
     'C01': {
-        'level': 'Bounded-exhaustive exploration of the real parser and renderer under ASan/UBSan with the exact-fit growth hook (so slack capacity is a redzone) and in a fast guard-page build: every string of <=3 (quick) / <=4 (thorough) tokens over 49 template tokens (every tag opener/closer, attribute piece, quote, operator, path piece, fillers of 250/300/65540 units that wrap the 8/16-bit tag fields) plus every code-unit truncation of a token; every well-formed template with <=3/4 nodes over 14 leaf tags and 8 containers (nesting <=4) with every code-unit cut and every deviation of distance 1 (delete, insert one of 45 tokens anywhere, swap, replace a closer); each rendered from an unterminated exact-size buffer against 8 value trees (object/array roots, deep nesting, removed members, zero divisors, INT64_MIN, pointer member) as char and char16_t. Oracle: no sanitizer report, no signal (SIGFPE), no hang, earlier stream content intact, tag-free text renders to itself. Six micro-grammars (inline-if, if-case with any quote character, expression endings, inline-if with a 65540-unit value, loop heads, super variables) walk 8-20 larger pieces each to 5-7 pieces deep, reaching constructs whose offsets the parser keeps in 8/16-bit fields and pieces that do not nest.',
+        'level': 'Bounded-exhaustive exploration of the real parser and renderer under ASan/UBSan with the exact-fit growth hook (so slack capacity is a redzone) and in a fast guard-page build: every string of <=3 (quick) / <=4 (thorough) tokens over 49 template tokens (every tag opener/closer, attribute piece, quote, operator, path piece, fillers of 250/300/65540 units that wrap the 8/16-bit tag fields) plus every code-unit truncation of a token; every well-formed template with <=3/4 nodes over 14 leaf tags and 8 containers (nesting <=4) with every code-unit cut and every deviation of distance 1 (delete, insert one of 45 tokens anywhere, swap, replace a closer); each rendered from an unterminated exact-size buffer against 8 value trees (object/array roots, deep nesting, removed members, zero divisors, INT64_MIN, pointer member) as char and char16_t. Oracle: no sanitizer report, no signal (SIGFPE), no hang, earlier stream content intact, tag-free text renders to itself. Eight micro-grammars (inline-if, if-case with any quote character, expression endings, inline-if with a 65540-unit value, loop heads, super variables, mixed nesting of svar / inline-if / if / loop / else, inline-if with 257 sub-tags) walk 8-20 larger pieces each to 5-7 pieces deep, reaching constructs whose offsets the parser keeps in 8/16-bit fields and pieces that do not nest.',
         'design_ref': 'DESIGN.md §5 C01',
         'note': 'Texts inside the stated token/deviation bounds; two character widths in the token stage; SIMD variants affect only Memory::Copy (covered by C14).',
         'technique': 'bounded-exhaustive input enumeration (token prefix tree + grammar derivations with bounded deviations) on the implementation under sanitizers',
@@ -97,7 +97,7 @@ TEXT = {
         'technique': 'exhaustive enumeration of finite numeric lattices on the implementation (round-trip identity)',
     },
     'C10': {
-        'level': 'Complete enumeration of described lattices on the real formatter against printf: sign x all 2047 binary exponents x 16/64 mantissa patterns x precision {0,1,2,3,6,15,17,40} / 0..40 x {Default,Fixed,SemiFixed}; k/1000 for k<=2e5 / 2e6 at precision 0..6; doubles at and next to every decimal tie 0.<1..20 digits>5 x 10^k (k=-324..307, 18 digit prefixes x 3/6 fills) printed at the tie\'s own precision in all formats; exact ties m/2^j (j<=41) and whole numbers o*5^a*2^b printed with one to three digits fewer than they have; floats with 12 low zero bits / all 2^32 floats (Default-6, Default-9, Fixed-3); all 8/16-bit integers, 32-bit integers on a 2^24 lattice / all 2^32, 64-bit boundary lattice; inf/nan/zeros; every case appended to a stream holding 0, 1 or 7 sentinel units that must survive; char, char16_t and char32_t streams. ASan variant on a sub-lattice.',
+        'level': 'Complete enumeration of described lattices on the real formatter against printf: sign x all 2047 binary exponents x 16/64 mantissa patterns x precision {0,1,2,3,6,15,17,40} / 0..40 x {Default,Fixed,SemiFixed}; k/1000 for k<=2e5 / 2e6 at precision 0..6; doubles at and next to every decimal tie 0.<1..20 digits>5 x 10^k (k=-324..307, 18 digit prefixes x 3/6 fills) printed at the tie\'s own precision in all formats; exact ties m/2^j (j<=41) and whole numbers o*5^a*2^b printed with one to three digits fewer than they have; every mantissa of <=10/12 leading bits at every binary exponent (Default 13-16, 32-35, 38-40 / 0..40); float subnormals at 28-40 digits; floats with 12 low zero bits / all 2^32 floats (Default-6, Default-9, Fixed-3); all 8/16-bit integers, 32-bit integers on a 2^24 lattice / all 2^32, 64-bit boundary lattice; inf/nan/zeros; every case appended to a stream holding 0, 1 or 7 sentinel units that must survive; char, char16_t and char32_t streams. ASan variant on a sub-lattice.',
         'design_ref': 'DESIGN.md §5 C10, §6',
         'note': 'Covers the stated lattices, not all 2^64 doubles (all floats in the thorough tier). glibc printf %g/%f trusted as correctly rounded. The defects the property text cites were genuine and are repaired by fix 39d17c3; both tiers are clean after it.',
         'technique': 'exhaustive enumeration of finite numeric lattices on the implementation, differential against printf',
